@@ -506,6 +506,10 @@ func (i If) byteCode(srcsel int, fl flags.Pass, cr compResult) bytecode.Type {
 		*cr.DS = append(*cr.DS, value.Nil)
 		instr = bytecode.New(bytecode.PUSH) | bytecode.EncodeSrc(0, bytecode.AddrDS, ix)
 		*cr.CS = append(*cr.CS, instr)
+
+		// either path leaves one value on the stack, also when the true case
+		// itself leaves nothing because it returns
+		dest = bytecode.EncodeSrc(srcsel, bytecode.AddrStck, 0)
 	}
 
 	// patch the JMPF
